@@ -66,7 +66,8 @@ def decClassifier (j : Json) : R Classifier := do
   let num ← j.getObjVal? "number"
   let numv ← if num.isNull then pure none else do pure (some (← num.getStr?))
   let ps ← (← j.getObjVal? "particles").getArr?
-  pure { star := ← (← j.getObjVal? "star").getBool?, name := ← (← j.getObjVal? "name").getStr?,
+  let sc := match j.getObjVal? "starCls" with | .ok v => v.getStr?.toOption.getD "*" | .error _ => "*"
+  pure { star := ← (← j.getObjVal? "star").getBool?, starCls := sc, name := ← (← j.getObjVal? "name").getStr?,
          nameCls := ← (← j.getObjVal? "cls").getStr?,
          number := numv,
          particles := ← ps.toList.mapM (·.getStr?) }
